@@ -7,6 +7,7 @@ CONSTANTS
   MaxHist = 2
   Backup = "none"
   Scenes <- Single
+  DispWrite = "every"
 INVARIANT TypeOK
 INVARIANT OutsideUnchanged
 INVARIANT HistoryIndependent
